@@ -323,3 +323,32 @@ for _c in ("Mae", "Bias", "Rmse", "StdError"):
     s, c, p = _shift_invariant(_c)
     register(Obligation("verif.metric.%s._compute_from_obs_fcst#LEMMA:invariant-under-subtracting-a-climatology" % _c, ("C14",), s, c, p, modules=MOD,
                         functions=["verif.metric.%s._compute_from_obs_fcst" % _c]))
+
+
+# ------------------------------------------------------------------ exact-zero guards and rounding (outside A1; specific inputs, known findings)
+def _constant_inexact(metric_name, which):
+    """a series that is constant but whose value (0.1) is not exactly representable: its floating-point variance is 2e-34, not 0, so
+    a guard of the form `np.var(x) == 0` / `denom == 0` does not fire and the metric returns a number where its definition is
+    undefined (zero variance).  Decided on the real code for these inputs only; the contracts above are proved over the reals (A1)."""
+    def body():
+        import warnings
+        o = _np.array([0.1, 0.1, 0.1]); g = _np.array([0.2, 0.3, 0.5])
+        obs, fcst = {"both-constant": (o, o.copy()), "constant-obs": (o, g), "constant-fcst": (g, o)}[which]
+        M = getattr(verif.metric, metric_name)()
+        with warnings.catch_warnings():
+            warnings.simplefilter("ignore")
+            v = float(M._compute_from_obs_fcst(obs, fcst))
+        if _np.isfinite(v):
+            return 1, {"metric": metric_name, "obs": obs.tolist(), "fcst": fcst.tolist(), "returned": v,
+                       "want": "NaN or a non-finite value: the definition divides by a variance that is zero"}
+        return 1, None
+    return body
+
+
+from .axis import _enumerated as _enum_float
+for _mn, _cases in (("Corr", ("both-constant", "constant-obs", "constant-fcst")), ("Kge", ("both-constant", "constant-obs")),
+                    ("Nsec", ("both-constant", "constant-obs")), ("Nnsec", ("both-constant", "constant-obs")), ("Alphaindex", ("both-constant",))):
+    for _w in _cases:
+        _enum_float("verif.metric.%s._compute_from_obs_fcst#FLOAT:%s-series-of-0.1-is-undefined" % (_mn, _w), ("C05",),
+                    "one input: the constant series [0.1, 0.1, 0.1] (and [0.2, 0.3, 0.5] as the other series)", _constant_inexact(_mn, _w),
+                    ["verif.metric.%s._compute_from_obs_fcst" % _mn])
